@@ -71,6 +71,15 @@ def inputs(tier):
         for layout in ('line', 'star'):
             out.append(dict(src='corpus', d=corpus.cluster_desc(ks, layout, 3.0, 'deep')))
     out.append(dict(src='corpus', d=corpus.cutout_desc('4DFR', 'B', 26, 8.0)))
+    # disulfides exactly along an axis, slid over the cell grid
+    for d in (2.05, 2.3, 2.49):
+        out.append(dict(src='ss-scan', d=d))
+    # parameter files that change the ranges (incl. desolvation range shorter than the burial range)
+    for name in CFG_EDITS:
+        out.append(dict(src='corpus', d=corpus.pair_desc('ASP', 'LYS', 2.8, 'deep'), cfg=name))
+        out.append(dict(src='corpus', d=corpus.pair_desc('HIS', 'GLU', 3.0, 'deep'), cfg=name))
+        out.append(dict(src='corpus', d=corpus.cutout_desc('3SGB', 'E', 40, 12.0), cfg=name))
+        out.append(dict(src='corpus', d=corpus.cutout_desc('1HPX', 'A', 24, 12.0), cfg=name))
     if tier == 'thorough':
         out += [dict(src='corpus', d=corpus.chain_desc('3SGB', 'I'))]
     return out
@@ -108,7 +117,7 @@ class OrthoSeam:
         propka.vector_algebra.Vector.orthogonal = self.orig
 
 
-def ties(rec, s):
+def ties(rec, s, cuts=(20.0, 15.0, 10.0)):
     """Guard from the input alone: any distance the model compares with '<' within 1e-6 A of its cut-off."""
     if gen.cutoff_ties(s, cutoffs=(2.5, 2.0, 1.7, 1.5)):
         return True
@@ -118,13 +127,13 @@ def ties(rec, s):
     for c in cents:
         for p in heavy:
             d = math.sqrt((c[0] - p[0]) ** 2 + (c[1] - p[1]) ** 2 + (c[2] - p[2]) ** 2)
-            if abs(d - 20.0) < 1e-6 or abs(d - 15.0) < 1e-6:
+            if abs(d - cuts[0]) < 1e-6 or abs(d - cuts[1]) < 1e-6:
                 return True
     allc = [g['xyz'] for g in conf['groups']]
     for i in range(len(allc)):
         for j in range(i):
             d = math.sqrt(sum((allc[i][k] - allc[j][k]) ** 2 for k in range(3)))
-            if abs(d - 10.0) < 1e-6:
+            if abs(d - cuts[2]) < 1e-6:
                 return True
     return False
 
@@ -181,7 +190,70 @@ def heavy_view(mol):
     return bonds, groups, desolv, bridges
 
 
+CFG_EDITS = {'short-desolv': {'desolv_cutoff': '10.0', 'buried_cutoff': '15.0'},
+             'long-ranges': {'desolv_cutoff': '30.0', 'buried_cutoff': '25.0', 'coulomb_cutoff2': '14.0', 'Nmin': '150', 'Nmax': '400'}}
+
+
+def cfg_opts(case):
+    name = case.get('cfg')
+    if not name:
+        return ()
+    import os
+    from . import c02
+    path = os.path.abspath('c04_%s.cfg' % name)
+    if not os.path.exists(path):
+        lines = []
+        for ln in c02.cfg_variants()[(1, 0, 0)].splitlines(True):
+            w = ln.split()
+            if w and w[0] in CFG_EDITS[name]:
+                ln = '%s %s\n' % (w[0], CFG_EDITS[name][w[0]])
+            lines.append(ln)
+        with open(path, 'w') as fh:
+            fh.write(''.join(lines))
+    return ('-p', path)
+
+
+def ss_scan(case, ctx, acc):
+    """A disulfide lying exactly along a coordinate axis, slid along that axis in 0.01 A steps over more than one cell."""
+    s = gen.pair('CYS', 'CYS', case['d'])
+    sg = [a for a in s.atoms if a.name == 'SG']
+    v = [sg[1].xyz[i] - sg[0].xyz[i] for i in range(3)]
+    R = gen.rotmat(v, [1.0, 0.0, 0.0])
+    for a in s.atoms:
+        q = [sum(R[i][j] * a.xyz[j] for j in range(3)) for i in range(3)]
+        a.x, a.y, a.z = (int(round(c * 1000)) for c in q)
+    sg[1].y, sg[1].z = sg[0].y, sg[0].z
+    s.translate(gen.seed_offset(ctx.seed))
+    ref = None
+    for ri in (0, 9, 17):     # rotations that map the x axis onto x, y and z
+        rot = gen.ROTATIONS[ri]
+        base = s.copy().rotate(rot)
+        axis = [abs(c) for c in (rot[1][i] * (1 if rot[0][i] == 0 else 0) for i in range(3))]
+        k = rot[0].index(0) if 0 in rot[0] else 0
+        for step in range(0, 262, 2 if ctx.tier == 'quick' else 1):
+            t = [0, 0, 0]
+            t[k] = step * 10
+            moved = base.copy().translate(t)
+            m = pk.run(gen.to_text(moved))
+            h = heavy_view(m)
+            view = (len(h[0]), [g for g in h[1]], [x[:2] for x in h[3]])
+            acc.n += 1
+            acc.nontrivial_n += 1
+            acc.extra['ss_scan_runs'] += 1
+            if ref is None:
+                ref = view
+            elif view != ref:
+                acc.viols.append(Viol(dict(case, rot=ri, step=step), 'pose', 'disulfide-depends-on-pose/sub-cell-translation',
+                                      'rotation %d, shift %.2f A along the bond axis: %d bonds, bridges %s (reference %d, %s)' % (
+                                          ri, step / 100.0, view[0], view[2], ref[0], ref[2]), inputs=dict(moved=gen.to_text(moved))))
+                return
+    acc.outcomes['ss-scan'] += 1
+
+
 def run_case(case, ctx, acc):
+    if case['src'] == 'ss-scan':
+        return ss_scan(case, ctx, acc)
+    base_opts = cfg_opts(case)
     if case['src'] == 'flat':
         s = flat_fragment(case['kind']).translate(gen.seed_offset(ctx.seed))
     else:
@@ -191,26 +263,27 @@ def run_case(case, ctx, acc):
     seam = OrthoSeam()
     try:
         pk.seam_unrounded_hydrogens(True)
-        m0 = pk.run(text0)
+        m0 = pk.run(text0, base_opts)
         rotamer = seam.calls > 0
         r0 = pk.record(m0)
         h0 = heavy_view(m0)
-        if ties(r0, s):
+        prm = m0.version.parameters
+        if ties(r0, s, (prm.desolv_cutoff, prm.buried_cutoff, prm.coulomb_cutoff2)):
             acc.skipped += 1
             acc.extra['skipped_cutoff_tie'] += 1
             return
         # production-mode run for the hydrogens to feed back
         pk.seam_unrounded_hydrogens(False)
-        mp = pk.run(text0)
+        mp = pk.run(text0, base_opts)
         rp = pk.record(mp)
         fed = c07.hydrogens_fed_back(s, mp) if amino else None
         rk0 = None
         shared, rs0, bs0 = None, None, None
         if fed is not None:
-            rk0 = pk.record(pk.run(gen.to_text(fed), ('--keep-protons',)))
+            rk0 = pk.record(pk.run(gen.to_text(fed), ('--keep-protons',) + base_opts))
             shared = with_shared_proton(fed)
             if shared is not None:
-                ms = pk.run(gen.to_text(shared), ('--keep-protons',))
+                ms = pk.run(gen.to_text(shared), ('--keep-protons',) + base_opts)
                 rs0, bs0 = pk.record(ms), all_bonds(ms)
         nt = any(any(g['dets'][t] for t in g['dets']) or g['energy_volume'] for g in r0['confs']['AVR']['groups'])
         trs = translations(s, ctx.tier, ctx.seed)
@@ -220,6 +293,8 @@ def run_case(case, ctx, acc):
                 if ri == 0 and tname == 'none':
                     continue
                 if ctx.tier == 'quick' and tname not in QUICK_FULL and ri not in (0, 5, 13, 22):
+                    continue
+                if ctx.tier == 'quick' and case.get('cfg') and (ri not in (0, 3, 5, 9, 13, 17, 22) or tname == 'far-positive'):
                     continue
                 sub = dict(case, rot=ri, tr=tname)
                 moved = s.copy().rotate(rot).translate(t)
@@ -231,7 +306,7 @@ def run_case(case, ctx, acc):
                 inputs = dict(pdb=text0, moved=text1)
                 pk.seam_unrounded_hydrogens(True)
                 seam.calls = 0
-                m1 = pk.run(text1)
+                m1 = pk.run(text1, base_opts)
                 r1 = pk.record(m1)
                 h1 = heavy_view(m1)
                 acc.case(nontrivial_key=jhash(sub) if nt else None, outcome='amino' if amino else 'hetero')
@@ -257,7 +332,7 @@ def run_case(case, ctx, acc):
                         v.append(('pka-depends-on-pose/unrounded-hydrogens/%s' % d[0][0], str(d[0])[:300]))
                     if fed is not None:
                         fm = gen.S([i.clone() if not isinstance(i, str) else i for i in fed]).rotate(rot).translate(t)
-                        rk1 = pk.record(pk.run(gen.to_text(fm), ('--keep-protons',)))
+                        rk1 = pk.record(pk.run(gen.to_text(fm), ('--keep-protons',) + base_opts))
                         d = cmp.diff_records(rk0, rk1, tol=1e-9)
                         acc.n += 1
                         if d:
@@ -265,7 +340,7 @@ def run_case(case, ctx, acc):
                             inputs['moved_with_h'] = gen.to_text(fm)
                     if shared is not None:
                         sm = gen.S([i.clone() if not isinstance(i, str) else i for i in shared]).rotate(rot).translate(t)
-                        m2 = pk.run(gen.to_text(sm), ('--keep-protons',))
+                        m2 = pk.run(gen.to_text(sm), ('--keep-protons',) + base_opts)
                         acc.n += 1
                         acc.extra['shared_proton_runs'] += 1
                         if all_bonds(m2) != bs0:
@@ -277,7 +352,7 @@ def run_case(case, ctx, acc):
                             inputs['moved_with_h'] = gen.to_text(sm)
                     # production mode: measured only
                     pk.seam_unrounded_hydrogens(False)
-                    r1p = pk.record(pk.run(text1))
+                    r1p = pk.record(pk.run(text1, base_opts))
                     for ga, gb in zip(rp['confs']['AVR']['groups'], r1p['confs']['AVR']['groups']):
                         maxdev = max(maxdev, abs(ga['pka'] - gb['pka']))
                 elif amino:
